@@ -81,6 +81,9 @@ def plan(run):
     for j, lay in enumerate(('F', 'stride', 'rev', 'T')):
         P.append(('numpy', (9, 10, 70), 16, (4, 4, -1), {'layout': lay}))
         P.append(('numpy', (6, 11, 40), 32, ((8, 8, 16), (4, 8, 32), (16, 16, 4), (8, 8, 16))[j], {'layout': lay}))
+    for lay, at in (('ro', None), ('mmap', None), (None, 'list'), (None, 'npint'), (None, 'float')):
+        P.append(('numpy', (9, 10, 70), 16, (4, 4, -1) if at != 'npint' else (4, 4, 128), {k: v for k, v in (('layout', lay), ('argtypes', at)) if v}))
+        P.append(('numpy', (6, 11, 40), 32, (8, 8, 16), {k: v for k, v in (('layout', lay), ('argtypes', at)) if v}))
     # SEG-Y routes
     # inline counts below, at and above a multiple of the block height (the last plane set full / short)
     # (and more than one block along the crossline AND the sample axis: the order in which a plane set's blocks are queued)
@@ -131,7 +134,19 @@ def _make(item):
                 arr = np.ascontiguousarray(cube[::-1, :, ::-1])[::-1, :, ::-1]
             elif lay == 'T':
                 arr = np.ascontiguousarray(cube.transpose(2, 0, 1)).transpose(1, 2, 0)
-            writers.numpy_to_sgz(p, arr, rate if isinstance(rate, (str, int)) else writers.rate_arg(rate), bs)
+            elif lay == 'ro':           # a read-only array
+                arr = cube.copy()
+                arr.setflags(write=False)
+            elif lay == 'mmap':         # a memory-mapped file
+                np.save(p + '.npy', cube)
+                arr = np.load(p + '.npy', mmap_mode='r')
+            at = opts.get('argtypes')   # the same setting spelled with other accepted types
+            bs_arg = list(bs) if at == 'list' else tuple(np.int64(x) for x in bs) if at == 'npint' else bs
+            rate_arg_ = np.int64(rate) if at == 'npint' else float(rate) if at == 'float' else rate
+            out_arg = __import__('pathlib').Path(p) if at in ('list', 'float') else p
+            writers.numpy_to_sgz(out_arg, arr, rate_arg_ if isinstance(rate_arg_, (str, int, float, np.integer)) else writers.rate_arg(rate), bs_arg)
+            if os.path.exists(p + '.npy'):
+                os.remove(p + '.npy')
             src = cube
         else:
             sgy = os.path.join(d, f'f{k}.sgy')
